@@ -15,22 +15,24 @@ PROPS = "Gql.Props.C08"
 DRIVER = "drv_c08"
 LEVEL = "proof"
 LEVEL_TEXT = (
-    "Lean theorems, for all strings with no bound on length: (1) print_string followed by the lexer's read_string returns "
-    "the value character for character, for every string of Unicode scalar values and any following text (escape table "
-    "regenerated from print_string.py on every run; its well-formedness re-decided by the kernel); (2) print_block_string "
-    "followed by read_block_string returns the value for every block-representable value, for every width, with and "
-    "without `minimize`, and also after the printer's re-indentation by any number of spaces; (3) every value the lexer can "
-    "produce from a block string literal is block-representable (the hypothesis is forced, not chosen); (4) the type "
-    "sub-grammar: printer model output lexes to exactly the type's tokens. The document-level statement "
-    "parse(print d) = d is stated against an abstract parser (roundtrip_full, not proved: the parser model is C01's) and is "
-    "evaluated directly on the implementation for every generated source and programmatic tree."
+    "Lean theorems, for all inputs with no bound: (1) strings - print_string / print_block_string (any width, with and "
+    "without minimize, re-indented by any amount) followed by the lexer return the value character for character; every "
+    "value the lexer produces from a block string literal is block-representable (the hypothesis is forced); "
+    "is_printable_as_block_string implies block-representable; (2) with the real parser model (C01's crash-faithful "
+    "model of parser.py): parse_type(print t) = t for every type tree, parse_value / parse_const_value(print v) = v for "
+    "every well-formed value tree in every layout the printer can choose (render_lex for values), and "
+    "parse(print d) = d for executable documents of operations, fragment definitions, fields, arguments, directives, "
+    "fragment spreads and inline fragments (stage 1: no variable definitions, descriptions, fragment arguments or "
+    "type-system definitions yet). The full document statement (roundtrip_full) is evaluated directly on the "
+    "implementation for every generated source and programmatic tree."
 )
 LEVEL_NOTE = (
     "Trusted: Lean kernel; the hand-written models Gql/Text/PrintString.lean, BlockString.lean, Gql/Syntax/Printer.lean "
-    "(tied to the code by byte-for-byte correspondence on every enumerated string and generated tree of the run) and the "
-    "shared lexer model Gql/Text/Lexer.lean; the harness. Not proved: tree-level round trip for documents and values "
-    "(no parser model here; layout safety `render_lex` and `tokensOf` only for types) - covered by the implementation-side "
-    "round-trip oracle, not by a theorem."
+    "(tied to the code by byte-for-byte correspondence on every enumerated string and generated tree of the run), the "
+    "shared lexer and parser models (Gql/Text/Lexer.lean, Gql/Syntax/Parser.lean; tied by C01/C09's correspondence); the "
+    "harness. Not proved: round trip for the remaining document node kinds (variable definitions, descriptions, type "
+    "system) and the converse 'every parsed tree is one of the typed well-formed trees' - both covered by the "
+    "implementation-side round-trip oracle, not by a theorem."
 )
 TECHNIQUE = "Lean 4 proof about executable models + T1 table + differential correspondence + round-trip oracle"
 TRUSTED = [
@@ -56,10 +58,11 @@ ASSUMPTIONS = [
     "are C01's subject",
 ]
 EXPLANATION = (
-    "Theorems (Gql/Props/C08.lean): escape_table_entries_decode, escape_table_covers_required, "
-    "escape_table_covers_controls (T1, decide), printString_roundtrip, block_roundtrip, block_indent_roundtrip, "
-    "lex_block_representable, type_print_lex; roundtrip_full is a stated Prop. Correspondence: model text = implementation "
-    "text for print_string / print_block_string (both minimize) / is_printable_as_block_string (exhaustive over a 12-symbol "
+    "Theorems (Gql/Props/C08.lean): escape_table_* (T1, decide), printString_roundtrip, block_roundtrip, "
+    "block_indent_roundtrip, lex_block_representable, printable_representable, type_print_lex, roundtrip_type, "
+    "render_lex_value, roundtrip_value, render_lex_document_partial, roundtrip_document_partial (parser model = "
+    "Gql.Syntax.parseSource); roundtrip_full is the stated full Prop. Correspondence: model text = implementation text "
+    "for print_string / print_block_string (both minimize) / is_printable_as_block_string (exhaustive over a 12-symbol "
     "alphabet + random scalar strings) and print_ast (every generated tree incl. ()/None variants and the repo fixtures). "
     "Oracles on the implementation: parse(print(d)) == d and print(parse(print(d))) == print(d) for every generated source "
     "(document / value / const value / type; both experimental flags) and every programmatic tree; token-level string "
